@@ -58,6 +58,9 @@ pub struct CfbChoices {
     /// version 3 only: the most significant 32 bits of the stream sizes are not initialised
     /// (older writers; [MS-CFB] 2.6.3 recommends that readers ignore them)
     pub size_high_garbage: bool,
+    /// the 64-byte name field of directory entries holds stale characters after the terminating
+    /// NUL (recycled entries); the name length field is authoritative
+    pub name_tail_garbage: bool,
 }
 
 impl Default for CfbChoices {
@@ -73,6 +76,7 @@ impl Default for CfbChoices {
             difat_backwards: false,
             overalloc: false,
             size_high_garbage: false,
+            name_tail_garbage: false,
         }
     }
 }
@@ -90,6 +94,7 @@ impl CfbChoices {
             difat_backwards: rng.bool(),
             overalloc: rng.chance(1, 4),
             size_high_garbage: rng.chance(1, 4),
+            name_tail_garbage: rng.chance(1, 4),
         }
     }
     pub fn features(&self) -> Vec<String> {
@@ -113,6 +118,9 @@ impl CfbChoices {
         }
         if self.size_high_garbage && !self.v4 {
             f.push("v3_size_high_dword_garbage".into());
+        }
+        if self.name_tail_garbage {
+            f.push("dir_name_tail_garbage".into());
         }
         f
     }
@@ -358,10 +366,19 @@ pub fn build(entries: &[Entry], ch: &CfbChoices, rng: &mut Rng) -> Built {
     }
     // ---- directory
     let mut dir = vec![0u8; n_dir_sectors * ss];
+    let name_tail_garbage = ch.name_tail_garbage;
     let write_entry = |buf: &mut [u8], name: &str, typ: u8, right: u32, child: u32, start: u32, size: u64| {
         let u: Vec<u16> = name.encode_utf16().take(31).collect();
         for (i, c) in u.iter().enumerate() {
             buf[2 * i..2 * i + 2].copy_from_slice(&c.to_le_bytes());
+        }
+        if name_tail_garbage {
+            for (k, c) in "Stale".encode_utf16().enumerate() {
+                let at = 2 * (u.len() + 1 + k);
+                if at + 2 <= 64 {
+                    buf[at..at + 2].copy_from_slice(&c.to_le_bytes());
+                }
+            }
         }
         buf[64..66].copy_from_slice(&(((u.len() + 1) * 2) as u16).to_le_bytes());
         buf[66] = typ;
